@@ -46,7 +46,7 @@ def i(t, x):
 # leaf operator impls: (op, A, B, C, kind) kind: 'map' = BTreeMap merge (assumed, uninterpreted remainder), 'free' = map-free (remainder 0)
 LEAVES = [
     ('add', 'Linear', 'f64', 'Linear', 'free'), ('add', 'Linear', 'Linear', 'Linear', 'merge'),
-    ('add', 'Quadratic', 'f64', 'Quadratic', 'free'), ('add', 'Quadratic', 'Linear', 'Quadratic', 'deleg'), ('add', 'Quadratic', 'Quadratic', 'Quadratic', 'map'),
+    ('add', 'Quadratic', 'f64', 'Quadratic', 'free'), ('add', 'Quadratic', 'Linear', 'Quadratic', 'deleg'), ('add', 'Quadratic', 'Quadratic', 'Quadratic', 'merge2'),
     ('add', 'Polynomial', 'f64', 'Polynomial', 'map'), ('add', 'Polynomial', 'Linear', 'Polynomial', 'map'), ('add', 'Polynomial', 'Quadratic', 'Polynomial', 'map'),
     ('add', 'Polynomial', 'Polynomial', 'Polynomial', 'map'),
     ('mul', 'Linear', 'f64', 'Linear', 'free'), ('mul', 'Linear', 'Linear', 'Quadratic', 'map'),
@@ -60,9 +60,14 @@ def contract(op, a, b, c, rem=None, lhs='self', rhs='rhs'):
     rem = rem or '%s(%s, %s, m)' % (rem_name(op, a, b), lhs, rhs)
     # for products the commuted form is stated too (real multiplication of two spec terms: Z3 does not always normalise the order)
     comm = (' && %s == %s %s %s - %s' % (v(c, 'r'), v(b, rhs), OPSYM[op], v(a, lhs), rem)) if op == 'mul' else ''
+    coo = ''
+    if c == 'Quadratic':
+        # COO arrays of equal lengths are preserved (Quadratic::quad_iter panics otherwise)
+        pre = ' && '.join(['qcoo(%s)' % x for t, x in ((a, lhs), (b, rhs)) if t == 'Quadratic']) or 'true'
+        coo = '\n            %s ==> qcoo(r),' % pre
     return ('''%s && %s ==> %s && forall|m: Map<u64, F64>| #![trigger %s] %s == %s %s %s - %s%s,
             %s.subset_of(%s.union(%s)),''' % (f(a, lhs), f(b, rhs), f(c, 'r'), v(c, 'r'), v(c, 'r'), v(a, lhs), OPSYM[op], v(b, rhs), rem, comm,
-                                             i(c, 'r'), i(a, lhs), i(b, rhs)))
+                                             i(c, 'r'), i(a, lhs), i(b, rhs))) + coo
 
 
 def spec_impl(op, a, b, c, req='true'):
@@ -74,7 +79,14 @@ def spec_impl(op, a, b, c, req='true'):
 def leaf_spec_text():
     out = ['// ---- leaf remainders: 0 for map-free code, uninterpreted for the assumed BTreeMap-merge leaves ----\n']
     for op, a, b, c, kind in LEAVES:
-        sig = 'pub %s spec fn %s(x: v1::%s, y: %s, m: Map<u64, F64>) -> real' % ('open' if kind in ('free', 'merge', 'deleg') else 'uninterp', rem_name(op, a, b), a, 'F64' if b == 'f64' else 'v1::' + b)
+        sig = 'pub %s spec fn %s(x: v1::%s, y: %s, m: Map<u64, F64>) -> real' % ('open' if kind in ('free', 'merge', 'deleg', 'merge2') else 'uninterp', rem_name(op, a, b), a, 'F64' if b == 'f64' else 'v1::' + b)
+        if kind == 'merge2':
+            assert (op, a, b) == ('add', 'Quadratic', 'Quadratic')
+            out.append('pub open spec fn rem_add_quadratic_quadratic(x: v1::Quadratic, y: v1::Quadratic, m: Map<u64, F64>) -> real {\n'
+                       '    quad_sum(x.rows@, x.columns@, x.values@, quad_n(x), m) + quad_sum(y.rows@, y.columns@, y.values@, quad_n(y), m)\n'
+                       '        - ksum(kacc(quad_items(y), quad_n(y), true, kins(quad_items(x), quad_n(x))), qw2(m))\n'
+                       '        + (match (x.linear, y.linear) { (Some(l), Some(r)) => rem_add_linear_linear(l, r, m), _ => 0real })\n}\n')
+            continue
         if kind == 'deleg':
             # verified leaf that delegates to Linear + Linear on the linear part
             assert (op, a, b) == ('add', 'Quadratic', 'Linear')
@@ -106,6 +118,7 @@ def leaf_spec_text():
     for op, nm in (('add', 'add_rem'), ('mul', 'mul_rem')):
         out.append('pub open spec fn %s(a: v1::Function, b: v1::Function, m: Map<u64, F64>) -> real {\n    match (a.function, b.function) {\n%s\n        _ => 0real,\n    }\n}\n' % (nm, arms(op)))
     out.append('pub open spec fn neg_rem(a: v1::Function, m: Map<u64, F64>) -> real { 0real }\n')
+    out.append('// observation: Quadratic::quad_iter asserts that the COO arrays have equal lengths (it panics otherwise)\npub open spec fn qcoo(q: v1::Quadratic) -> bool { q.columns.len() == q.rows.len() && q.columns.len() == q.values.len() }\npub open spec fn fn_coo_ok(f: v1::Function) -> bool { match f.function { Some(v1::function::Function::Quadratic(q)) => qcoo(q), _ => true } }\n')
     return ''.join(out)
 
 
@@ -175,13 +188,13 @@ def from_units():
     return U
 
 
-DISPATCH_REQ = 'self.function is Some && rhs.function is Some'
+DISPATCH_REQ = 'self.function is Some && rhs.function is Some && fn_coo_ok(self) && fn_coo_ok(rhs)'
 
 
 def function_add():
     return Unit('Add for Function', 'v1_ext/function.rs', 'add', impl=r'impl Add for Function \{', sig='fn add(self, rhs: Self) -> Self', anyhow=False,
                 pre=spec_impl('add', 'Function', 'Function', 'Function', req=DISPATCH_REQ), wrap=('impl core::ops::Add for Function { type Output = Function;', '}'),
-                header='fn add(self, rhs: Self) -> (r: Self)\n        // every one of the 16 operand-kind pairs: the sum of the two polynomials (explicit epsilon-drop remainder), in a kind able to hold it\n        ensures r.function is Some,\n            fn_ids(r).subset_of(fn_ids(self).union(fn_ids(rhs))),\n            fn_fin(self) && fn_fin(rhs) ==> fn_fin(r),\n            fn_fin(self) && fn_fin(rhs) ==> forall|m: Map<u64, F64>| #![trigger fn_val(r, m)] fn_val(r, m) == fn_val(self, m) + fn_val(rhs, m) - add_rem(self, rhs, m),\n            is_sum(r, self, rhs),',
+                header='fn add(self, rhs: Self) -> (r: Self)\n        // every one of the 16 operand-kind pairs: the sum of the two polynomials (explicit epsilon-drop remainder), in a kind able to hold it\n        ensures r.function is Some,\n            fn_ids(r).subset_of(fn_ids(self).union(fn_ids(rhs))),\n            fn_fin(self) && fn_fin(rhs) ==> fn_fin(r),\n            fn_fin(self) && fn_fin(rhs) ==> forall|m: Map<u64, F64>| #![trigger fn_val(r, m)] fn_val(r, m) == fn_val(self, m) + fn_val(rhs, m) - add_rem(self, rhs, m),\n            is_sum(r, self, rhs),\n            fn_coo_ok(r),',
                 subs=[('self.function.expect(StrLit(%d))' % __import__('zlib').crc32(b'Empty Function'), 'self.function.unwrap()')] if False else [],
                 rsubs=[(r'\.expect\("Empty Function"\)', '.unwrap()', 2)])
 
@@ -189,7 +202,7 @@ def function_add():
 def function_mul():
     return Unit('Mul for Function', 'v1_ext/function.rs', 'mul', impl=r'impl Mul for Function \{', sig='fn mul(self, rhs: Self) -> Self', anyhow=False,
                 pre=spec_impl('mul', 'Function', 'Function', 'Function', req=DISPATCH_REQ), wrap=('impl core::ops::Mul for Function { type Output = Function;', '}'),
-                header='fn mul(self, rhs: Self) -> (r: Self)\n        // products that raise the degree are returned in a kind able to hold every resulting term\n        ensures r.function is Some,\n            fn_ids(r).subset_of(fn_ids(self).union(fn_ids(rhs))),\n            fn_fin(self) && fn_fin(rhs) ==> fn_fin(r),\n            fn_fin(self) && fn_fin(rhs) ==> forall|m: Map<u64, F64>| #![trigger fn_val(r, m)] fn_val(r, m) == fn_val(self, m) * fn_val(rhs, m) - mul_rem(self, rhs, m),\n            is_prod(r, self, rhs),',
+                header='fn mul(self, rhs: Self) -> (r: Self)\n        // products that raise the degree are returned in a kind able to hold every resulting term\n        ensures r.function is Some,\n            fn_ids(r).subset_of(fn_ids(self).union(fn_ids(rhs))),\n            fn_fin(self) && fn_fin(rhs) ==> fn_fin(r),\n            fn_fin(self) && fn_fin(rhs) ==> forall|m: Map<u64, F64>| #![trigger fn_val(r, m)] fn_val(r, m) == fn_val(self, m) * fn_val(rhs, m) - mul_rem(self, rhs, m),\n            is_prod(r, self, rhs),\n            fn_coo_ok(r),',
                 rsubs=[(r'\.expect\("Empty Function"\)', '.unwrap()', 2)])
 
 
@@ -343,7 +356,7 @@ pub proof fn lemma_mul_rem_const(a: v1::Function, c: F64, m: Map<u64, F64>)
 
 
 def _req_some(x):
-    return '%s.function is Some' % x
+    return '%s.function is Some && fn_coo_ok(%s)' % (x, x)
 
 
 def macro_units():
@@ -365,28 +378,28 @@ def macro_units():
         a, b = args
         if a != 'Function' or b not in CONV:
             raise core.LostAnchor('unexpected impl_add_from! instance %s' % args)
-        U.append(unit('impl_add_from', args, ln, FN, 'add', 'impl core::ops::Add<%s> for Function { type Output = Function;' % T[b]['rust'], si('Add', 'add', a, b, 'Function', _req_some('self')),
-                      'fn add(self, rhs: %s) -> (r: Function)\n        ensures is_sum(r, self, %s(rhs)),' % (T[b]['rust'], CONV[b])))
+        U.append(unit('impl_add_from', args, ln, FN, 'add', 'impl core::ops::Add<%s> for Function { type Output = Function;' % T[b]['rust'], si('Add', 'add', a, b, 'Function', _req_some('self') + ' && fn_coo_ok(%s(rhs))' % CONV[b]),
+                      'fn add(self, rhs: %s) -> (r: Function)\n        ensures is_sum(r, self, %s(rhs)), fn_coo_ok(r),' % (T[b]['rust'], CONV[b])))
     for args, ln in core.macro_invocations(FN, 'impl_add_inverse'):
         a, b = args
         if b != 'Function' or a not in CONV:
             raise core.LostAnchor('unexpected impl_add_inverse! instance %s' % args)
-        U.append(unit('impl_add_inverse', args, ln, FN, 'add', 'impl core::ops::Add<Function> for %s { type Output = Function;' % T[a]['rust'], si('Add', 'add', a, b, 'Function', _req_some('rhs')),
-                      'fn add(self, rhs: Function) -> (r: Function)\n        // commuted: the sum is computed as rhs + self\n        ensures is_sum(r, rhs, %s(self)),' % CONV[a]))
+        U.append(unit('impl_add_inverse', args, ln, FN, 'add', 'impl core::ops::Add<Function> for %s { type Output = Function;' % T[a]['rust'], si('Add', 'add', a, b, 'Function', _req_some('rhs') + ' && fn_coo_ok(%s(self))' % CONV[a]),
+                      'fn add(self, rhs: Function) -> (r: Function)\n        // commuted: the sum is computed as rhs + self\n        ensures is_sum(r, rhs, %s(self)), fn_coo_ok(r),' % CONV[a]))
     for args, ln in core.macro_invocations(FN, 'impl_mul_from'):
         a, b, c = args
         if a != 'Function' or c != 'Function' or b not in CONV:
             raise core.LostAnchor('unexpected impl_mul_from! instance %s' % args)
-        U.append(unit('impl_mul_from', args, ln, FN, 'mul', 'impl core::ops::Mul<%s> for Function { type Output = Function;' % T[b]['rust'], si('Mul', 'mul', a, b, 'Function', _req_some('self')),
-                      'fn mul(self, rhs: %s) -> (r: Function)\n        ensures is_prod(r, self, %s(rhs)),' % (T[b]['rust'], CONV[b])))
+        U.append(unit('impl_mul_from', args, ln, FN, 'mul', 'impl core::ops::Mul<%s> for Function { type Output = Function;' % T[b]['rust'], si('Mul', 'mul', a, b, 'Function', _req_some('self') + ' && fn_coo_ok(%s(rhs))' % CONV[b]),
+                      'fn mul(self, rhs: %s) -> (r: Function)\n        ensures is_prod(r, self, %s(rhs)), fn_coo_ok(r),' % (T[b]['rust'], CONV[b])))
     for args, ln in core.macro_invocations(FN, 'impl_mul_inverse'):
         a, b = args
         if b != 'Function' or a not in CONV:
             raise core.LostAnchor('unexpected impl_mul_inverse! instance %s' % args)
-        U.append(unit('impl_mul_inverse', args, ln, FN, 'mul', 'impl core::ops::Mul<Function> for %s { type Output = Function;' % T[a]['rust'], si('Mul', 'mul', a, b, 'Function', _req_some('rhs')),
-                      'fn mul(self, rhs: Function) -> (r: Function)\n        ensures is_prod(r, rhs, %s(self)),' % CONV[a]))
+        U.append(unit('impl_mul_inverse', args, ln, FN, 'mul', 'impl core::ops::Mul<Function> for %s { type Output = Function;' % T[a]['rust'], si('Mul', 'mul', a, b, 'Function', _req_some('rhs') + ' && fn_coo_ok(%s(self))' % CONV[a]),
+                      'fn mul(self, rhs: Function) -> (r: Function)\n        ensures is_prod(r, rhs, %s(self)), fn_coo_ok(r),' % CONV[a]))
     # Neg: `self * -1.0`
-    NEGP = {'Function': ('is_neg(r, self)', 'self.function is Some'), 'Linear': ('neg_linear(r, self)', 'true'), 'Quadratic': ('neg_quadratic(r, self)', 'true'), 'Polynomial': ('neg_polynomial(r, self)', 'true')}
+    NEGP = {'Function': ('is_neg(r, self) && fn_coo_ok(r)', 'self.function is Some && fn_coo_ok(self)'), 'Linear': ('neg_linear(r, self)', 'true'), 'Quadratic': ('neg_quadratic(r, self) && (qcoo(self) ==> qcoo(r))', 'true'), 'Polynomial': ('neg_polynomial(r, self)', 'true')}
     for file, ty in ((FN, 'Function'), ('linear.rs', 'Linear'), ('quadratic.rs', 'Quadratic'), ('polynomial.rs', 'Polynomial')):
         inv = core.macro_invocations(file, 'impl_neg_by_mul')
         if [a for a, _ in inv] != [[ty]]:
@@ -405,7 +418,7 @@ def macro_units():
         nsi = 'impl NegSpecImpl for %s { open spec fn obeys_neg_spec() -> bool { false } open spec fn neg_req(self) -> bool { %s } open spec fn neg_spec(self) -> %s { arbitrary() } }\n' % (ty, req, ty)
         U.append(Unit('impl_neg_by_mul!(%s) [by value]' % ty, file, 'neg', text=(parts[0], ln), anyhow=False, pre=nsi, wrap=('impl core::ops::Neg for %s { type Output = %s;' % (ty, ty), '}'),
                       header='fn neg(self) -> (r: %s)\n        ensures %s,' % (ty, post), proofs=[('start', negone + proof)]))
-        nsi2 = "impl<'a> NegSpecImpl for &'a %s { open spec fn obeys_neg_spec() -> bool { false } open spec fn neg_req(self) -> bool { %s } open spec fn neg_spec(self) -> %s { arbitrary() } }\n" % (ty, req, ty)
+        nsi2 = "impl<'a> NegSpecImpl for &'a %s { open spec fn obeys_neg_spec() -> bool { false } open spec fn neg_req(self) -> bool { %s } open spec fn neg_spec(self) -> %s { arbitrary() } }\n" % (ty, req.replace('fn_coo_ok(self)', 'fn_coo_ok(*self)'), ty)
         U.append(Unit('impl_neg_by_mul!(%s) [by reference]' % ty, file, 'neg', text=('impl ::std::ops::Neg for &' + parts[1], ln), anyhow=False, pre=nsi2,
                       wrap=("impl<'a> core::ops::Neg for &'a %s { type Output = %s;" % (ty, ty), '}'),
                       header='fn neg(self) -> (r: %s)\n        ensures %s,' % (ty, post.replace('self', '*self')), proofs=[('start', negone + proof.replace('(self,', '(*self,'))]))
@@ -414,8 +427,8 @@ def macro_units():
         if a != 'Function' or b not in CONV:
             raise core.LostAnchor('unexpected impl_sub_by_neg_add! instance %s' % args)
         U.append(unit('impl_sub_by_neg_add', args, ln, FN, 'sub', 'impl core::ops::Sub<%s> for Function { type Output = Function;' % T[b]['rust'],
-                      si('Sub', 'sub', a, b, 'Function', _req_some('self') + (' && rhs.function is Some' if b == 'Function' else '')),
-                      'fn sub(self, rhs: %s) -> (r: Function)\n        ensures is_diff_%s(r, self, rhs),' % (T[b]['rust'], low(b))))
+                      si('Sub', 'sub', a, b, 'Function', _req_some('self') + (' && rhs.function is Some' if b == 'Function' else '') + ' && fn_coo_ok(%s(rhs))' % CONV[b]),
+                      'fn sub(self, rhs: %s) -> (r: Function)\n        ensures is_diff_%s(r, self, rhs), fn_coo_ok(r),' % (T[b]['rust'], low(b))))
     return U
 
 
@@ -550,3 +563,130 @@ def typed_macro_units():
             U.append(unit(file, 'impl_mul_inverse', args, ln, 'mul', 'impl core::ops::Mul<%s> for %s { type Output = %s;' % (T[b]['rust'], T[a]['rust'], T[b]['rust']), si('Mul', 'mul', a, b, b),
                           'fn mul(self, rhs: %s) -> (r: %s)\n        ensures %s' % (T[b]['rust'], T[b]['rust'], contract('mul', b, a, b, lhs='rhs', rhs='self'))))
     return U
+
+
+# ---------------------------------------------------------------- Quadratic: quad_iter, FromIterator, Add (entry API over (u64, u64) keys)
+def quadratic_quad_iter():
+    return Unit('Quadratic::quad_iter', 'quadratic.rs', 'quad_iter', impl=r'impl Quadratic \{', sig="pub fn quad_iter(&self) -> impl Iterator<Item = ((u64, u64), f64)> + '_", anyhow=False,
+                wrap=('impl Quadratic {', '}'),
+                header='''pub fn quad_iter(&self) -> (r: Vec<((u64, u64), F64)>)
+        // R22: the returned `impl Iterator` is instantiated at Vec.  observation: the two assert_eq! panic on COO arrays of different lengths
+        requires self.columns.len() == self.rows.len(), self.columns.len() == self.values.len(),
+        ensures r@ == quad_items(*self),''',
+                rsubs=[(r'assert_eq!\(([^;]*?), ([^;]*?)\);', r'vassert_eq(\1, \2);', 2),
+                       (r'(?s)self\.columns\.iter\(\)\.zip\(self\.rows\.iter\(\)\)\.zip\(self\.values\.iter\(\)\)\.map\((.*)\)\s*\}\s*$', r'let __r = vec_map_collect(zip_zip(&self.columns, &self.rows, &self.values), \1); proof { assert(__r@ =~= quad_items(*self)); } __r }', 1)],
+                closures=[dict(params='((column, row), value)', typed='p: ((&u64, &u64), &F64)', ret='((u64, u64), F64)', bind='let column = p.0.0; let row = p.0.1; let value = p.1;',
+                               ensures='ret == ((*p.0.0, *p.0.1), *p.1)')])
+
+
+def quadratic_from_iter():
+    final_proof = '''proof {
+            let am = kacc(ci, ci.len() as int, false, Map::empty());
+            assert forall|j: int| 0 <= j < rows.len() implies exists|i: int| 0 <= i < iter.len() && canon2((#[trigger] iter[i]).0) == (#[trigger] rows[j], columns[j]) by {
+                assert(tm.contains_key(__h2[j].0)); }
+            if kfin(iter@) {
+                assert(kfin(ci)) by { assert forall|i: int| 0 <= i < ci.len() implies fin((#[trigger] ci[i]).1) by { assert(ci[i].1 == iter[i].1); } }
+                assert(am.dom() =~= tm.dom());
+                assert(klists(__h2@, __h2.len() as int, am));
+                assert forall|j: int| 0 <= j < values.len() implies fin(#[trigger] values[j]) by { assert(tm.contains_key(__h2[j].0)); assert(values[j] == __h2[j].1); }
+                assert forall|x: Map<u64, F64>| quad_sum(rows@, columns@, values@, rows.len() as int, x) == kseq_sum(iter@, iter.len() as int, qw2(x)) by {
+                    lemma_listing_quad_sum(__h2@, rows@, columns@, values@, __h2.len() as int, x);
+                    lemma_klist_sum(__h2@, __h2.len() as int, am, qw2(x));
+                    lemma_kacc_exact(ci, ci.len() as int, Map::empty(), qw2(x));
+                    lemma_ksum_empty::<(u64, u64)>(qw2(x));
+                    lemma_canon_sum(iter@, iter.len() as int, x);
+                }
+            }
+        }
+        '''
+    return Unit('FromIterator<((u64, u64), f64)> for Quadratic', 'quadratic.rs', 'from_iter', impl=r'impl FromIterator<\(\(u64, u64\), f64\)> for Quadratic \{',
+                sig='fn from_iter<I: IntoIterator<Item = ((u64, u64), f64)>>(iter: I) -> Self', anyhow=False, wrap=('impl Quadratic {', '}'),
+                header='''#[verifier::loop_isolation(false)]
+pub fn from_iter(iter: Vec<((u64, u64), F64)>) -> (r: Quadratic)
+        // R22: the IntoIterator parameter is instantiated at Vec.  Positions are made canonical (smaller id first), equal positions accumulated, nothing is dropped:
+        // the quadratic form of the result is EXACTLY the sum of the given items
+        ensures r.linear is None, r.rows.len() == r.columns.len(), r.rows.len() == r.values.len(),
+            kfin(iter@) ==> vals_fin(r.values@) && forall|x: Map<u64, F64>| #![trigger quad_sum(r.rows@, r.columns@, r.values@, r.rows.len() as int, x)]
+                quad_sum(r.rows@, r.columns@, r.values@, r.rows.len() as int, x) == kseq_sum(iter@, iter.len() as int, qw2(x)),
+            forall|j: int| 0 <= j < r.rows.len() ==> exists|i: int| 0 <= i < iter.len() && canon2((#[trigger] iter[i]).0) == (#[trigger] r.rows[j], r.columns[j]),''',
+                rsubs=[(r'let mut terms = BTreeMap::new\(\);', 'let mut terms: BTreeMap<(u64, u64), F64> = BTreeMap::new();', 1),
+                       (r'let mut (columns|rows) = Vec::new\(\);', r'let mut \1: Vec<u64> = Vec::new();', 2),
+                       (r'let mut values = Vec::new\(\);', 'let mut values: Vec<F64> = Vec::new();', 1),
+                       (r'in terms \{', 'in btree_into_vec2(terms) {', 1)],
+                loops=[dict(kind='for', it='it_1', rebind='((__e.0.0, __e.0.1), __e.1)',
+                            body_proof=' proof { assert(*__e == iter[it_1.index@ as int]); assert(ci[it_1.index@ as int] == (canon2(__e.0), __e.1)); }',
+                            inv='''invariant
+                ci == canon_items(iter@), __h1@ == iter@,
+                kfin(ci) ==> kmatches(terms@, kacc(ci, it_1.index@ as int, false, Map::empty())),
+                forall|k: (u64, u64)| #[trigger] terms@.contains_key(k) ==> exists|i: int| 0 <= i < it_1.index@ && canon2((#[trigger] iter[i]).0) == k,'''),
+                       dict(kind='for', it='it_2', rebind='((__e.0.0, __e.0.1), __e.1)',
+                            body_proof=' proof { assert(*__e == __h2[it_2.index@ as int]); }',
+                            inv='''invariant
+                rows.len() == it_2.index@, columns.len() == it_2.index@, values.len() == it_2.index@,
+                forall|j: int| 0 <= j < it_2.index@ ==> (#[trigger] __h2[j]).0 == (rows[j], columns[j]) && __h2[j].1 == values[j],''')],
+                proofs=[(('before', r'let __h1 = iter;'), 'let ghost ci = canon_items(iter@);\n        '),
+                        (('before', r'let __h2 = btree_into_vec2\(terms\);'), 'let ghost tm = terms@;\n        '),
+                        (('before', r'Self \{\s*columns,'), final_proof)])
+
+
+def quadratic_add_quadratic():
+    NX = 'quad_n(self)'
+    final_proof = '''proof {
+            // ids: every position of the result comes (made canonical) from a key of the map, every key from a position of self or rhs
+            assert forall|k: u64| quad_ids(out.rows@, out.columns@, quad_n(out)).contains(k) implies quadratic_ids(self).union(quadratic_ids(rhs)).contains(k) by {
+                lemma_quad_ids_mem(out.rows@, out.columns@, quad_n(out), k);
+                let j = choose|j: int| 0 <= j < quad_n(out) && #[trigger] pos_has(out.rows@, out.columns@, j, k);
+                let i = choose|i: int| 0 <= i < lst.len() && canon2((#[trigger] lst[i]).0) == (out.rows[j], out.columns[j]);
+                let key = lst[i].0;
+                assert(mapv.contains_key(key));
+                assert(key.0 == k || key.1 == k);
+                if exists|i2: int| 0 <= i2 < xs.len() && (#[trigger] xs[i2]).0 == key {
+                    let i2 = choose|i2: int| 0 <= i2 < xs.len() && (#[trigger] xs[i2]).0 == key;
+                    assert(xs[i2].0 == (self.columns[i2], self.rows[i2]));
+                    lemma_quad_ids_mem(self.rows@, self.columns@, quad_n(self), k);
+                    assert(pos_has(self.rows@, self.columns@, i2, k));
+                } else {
+                    let i2 = choose|i2: int| 0 <= i2 < ys.len() && (#[trigger] ys[i2]).0 == key;
+                    assert(ys[i2].0 == (rhs.columns[i2], rhs.rows[i2]));
+                    lemma_quad_ids_mem(rhs.rows@, rhs.columns@, quad_n(rhs), k);
+                    assert(pos_has(rhs.rows@, rhs.columns@, i2, k));
+                }
+            }
+            if quadratic_fin(self) && quadratic_fin(rhs) {
+                assert(kfin(ys)); assert(kfin(xs));
+                assert(m1.dom() =~= mapv.dom());
+                assert(klists(lst, lst.len() as int, m1));
+                assert forall|x: Map<u64, F64>| quad_sum(out.rows@, out.columns@, out.values@, out.rows.len() as int, x) == ksum(m1, qw2(x)) by { lemma_klist_sum(lst, lst.len() as int, m1, qw2(x)); }
+                assert forall|x: Map<u64, F64>| kseq_sum(xs, xs.len() as int, qw2(x)) == quad_sum(self.rows@, self.columns@, self.values@, quad_n(self), x) by { lemma_quad_items_sum(self, quad_n(self), x); }
+                assert forall|x: Map<u64, F64>| kseq_sum(ys, ys.len() as int, qw2(x)) == quad_sum(rhs.rows@, rhs.columns@, rhs.values@, quad_n(rhs), x) by { lemma_quad_items_sum(rhs, quad_n(rhs), x); }
+            }
+        }
+        '''
+    return Unit('Add for Quadratic', 'quadratic.rs', 'add', impl=r'impl Add for Quadratic \{', sig='fn add(self, rhs: Self) -> Self', anyhow=False,
+                pre=spec_impl('add', 'Quadratic', 'Quadratic', 'Quadratic', req='self.columns.len() == self.rows.len() && self.columns.len() == self.values.len() && rhs.columns.len() == rhs.rows.len() && rhs.columns.len() == rhs.values.len()'),
+                wrap=('impl core::ops::Add for Quadratic { type Output = Quadratic;', '}'),
+                header='''#[verifier::loop_isolation(false)]
+fn add(self, rhs: Self) -> (r: Quadratic)
+        // the quadratic part is the specified merge (positions of self inserted, positions of rhs accumulated with dropping, then made canonical), the linear parts are added;
+        // the remainder is DEFINED as the difference to that merge
+        ensures ''' + contract('add', 'Quadratic', 'Quadratic', 'Quadratic'),
+                rsubs=[(r'self\.quad_iter\(\)\.collect\(\)', 'btreemap_collect2(self.quad_iter())', 1),
+                       (r'let mut out: Self = map\.into_iter\(\)\.collect\(\);', 'let __l = btree_into_vec2(map); let ghost lst = __l@; let mut out: Self = Quadratic::from_iter(__l);', 1)],
+                loops=[dict(kind='for', it='it_1', rebind='(__e.0, __e.1)',
+                            body_proof=' proof { assert(*__e == ys[it_1.index@ as int]); }',
+                            inv='''invariant
+                xs == quad_items(self), ys == quad_items(rhs), __h1@ == ys,
+                kfin(xs) && kfin(ys) ==> kmatches(map@, kacc(ys, it_1.index@ as int, true, kins(xs, xs.len() as int))),
+                forall|k: (u64, u64)| #[trigger] map@.contains_key(k) ==> (exists|i: int| 0 <= i < xs.len() && (#[trigger] xs[i]).0 == k) || (exists|i: int| 0 <= i < it_1.index@ && (#[trigger] ys[i]).0 == k),''')],
+                proofs=[(('before', r'let mut map: BTreeMap'), 'let ghost xs = quad_items(self); let ghost ys = quad_items(rhs);\n        '),
+                        (('after', r'let mut map: BTreeMap<\(u64, u64\), F64> = btreemap_collect2\(self\.quad_iter\(\)\);'), '''
+        proof { if kfin(xs) { assert(kmatches(map@, kins(xs, xs.len() as int))) by {
+            let n = xs.len() as int;
+            assert forall|k: (u64, u64)| map@.contains_key(k) <==> kins(xs, n).contains_key(k) by {
+                if map@.contains_key(k) { let i = choose|i: int| 0 <= i < n && (#[trigger] xs[i]).0 == k && xs[i].1 == map@[k] && forall|j: int| i < j < n ==> (#[trigger] xs[j]).0 != k; lemma_kins_has(xs, n, i); }
+                if kins(xs, n).contains_key(k) { let i = lemma_kins_from(xs, n, k); assert(map@.contains_key(xs[i].0)); } }
+            assert forall|k: (u64, u64)| map@.contains_key(k) implies (#[trigger] map@[k])@ == XR::Fin(kins(xs, n)[k]) by {
+                let i = choose|i: int| 0 <= i < n && (#[trigger] xs[i]).0 == k && xs[i].1 == map@[k] && forall|j: int| i < j < n ==> (#[trigger] xs[j]).0 != k;
+                lemma_kins_last(xs, n, i); } } } }'''),
+                        (('before', r'let __l = btree_into_vec2\(map\);'), 'let ghost mapv = map@; let ghost m1 = kacc(ys, ys.len() as int, true, kins(xs, xs.len() as int));\n        '),
+                        (('before', r'out\s*\}\s*$'), final_proof)])
